@@ -88,6 +88,13 @@ class Server(ThreadingHTTPServer):
         self.thread = threading.Thread(target=self.serve_forever, daemon=True)
         self.thread.start()
 
+    def handle_error(self, request, client_address):
+        # a client that exits in the middle of a transfer (zckdl after an error) resets the connection: not the server's problem
+        import sys
+        if isinstance(sys.exc_info()[1], (ConnectionResetError, BrokenPipeError, ConnectionAbortedError)):
+            return
+        super().handle_error(request, client_address)
+
     def mark(self, code):
         with self.lock:
             p, r, _ = self.log[-1]
